@@ -44,6 +44,37 @@ type World struct {
 	failAt map[string]int
 	Links  map[string]*Link // consumer name -> IBC link info
 	updPlanned map[string]uint64
+	pendingVals []pendingVal
+	hsConsumer string // consumer the current handshake step concerns
+}
+
+type pendingVal struct{ name, op, key string }
+
+// registerCreatedValidators keeps the names given (at tx-building time) to validators that now exist and
+// forgets those whose creation failed.
+func (w *World) registerCreatedValidators() {
+	if len(w.pendingVals) == 0 {
+		return
+	}
+	ctx := w.P.GetContext()
+	for _, pv := range w.pendingVals {
+		va, _ := sdk.ValAddressFromBech32(pv.op)
+		if _, err := w.P.PApp.StakingKeeper.GetValidator(ctx, va); err == nil {
+			continue
+		}
+		delete(w.N.ValByOp, pv.op)
+		if ck := fmt.Sprintf("%x", []byte(w.N.Keys[pv.key].Addr())); w.N.ValByCons[ck] == pv.name {
+			delete(w.N.ValByCons, ck)
+		}
+		delete(w.ValKey, pv.name)
+		for i, nm := range w.N.ValNames {
+			if nm == pv.name {
+				w.N.ValNames = append(w.N.ValNames[:i], w.N.ValNames[i+1:]...)
+				break
+			}
+		}
+	}
+	w.pendingVals = nil
 }
 
 // Link holds the IBC identifiers of the provider<->consumer connection as the relayer knows them.
@@ -82,7 +113,8 @@ func (w *World) onTrace(ctx sdk.Context, point string, kv ...string) {
 	for i := 0; i+1 < len(kv); i += 2 {
 		args[kv[i]] = kv[i+1]
 	}
-	rctx := ctx.WithGasMeter(storetypes.NewInfiniteGasMeter()).WithEventManager(sdk.NewEventManager())
+	// read through a throw-away branch: the projection must never write (some keeper "getters" do)
+	rctx, _ := ctx.WithGasMeter(storetypes.NewInfiniteGasMeter()).WithEventManager(sdk.NewEventManager()).CacheContext()
 	var snap map[string]any
 	if !w.rec.skipSnap(c, point) {
 		if c.IsProv {
@@ -260,6 +292,15 @@ func (w *World) markReceived(src, dst *Chain, port, channel string, batch []*Pac
 	}
 }
 
+func (w *World) unmarkReceived(src, dst *Chain, port, channel string, batch []*Packet) {
+	k := chanKey(src.Name, port, channel)
+	w.net.pkts[k] = append(append([]*Packet{}, batch...), w.net.pkts[k]...)
+	for _, p := range batch {
+		rk := chanKey("", p.P.SourcePort, p.P.SourceChannel) + "|" + strconv.FormatUint(p.P.Sequence, 10) + "|" + dst.Name
+		delete(w.net.recv, rk)
+	}
+}
+
 // ackTx returns the transaction delivering up to n acknowledgements back to src (the packet sender).
 func (w *World) ackTx(src, dst *Chain, srcClient, port, channel string, n int, signer *Account) (*TxSpec, []*Packet) {
 	k := chanKey(src.Name, port, channel)
@@ -322,7 +363,7 @@ func (r *Recorder) Start() {
 	cfg := map[string]any{}
 	b, _ := json.Marshal(w.Cfg)
 	_ = json.Unmarshal(b, &cfg)
-	ctx := w.P.GetContext()
+	ctx, _ := w.P.GetContext().CacheContext()
 	r.emit("p", "Init", map[string]any{"cfg": cfg, "gov": "gov"}, nil, w.projectProvider(w.P, ctx))
 }
 
@@ -358,7 +399,18 @@ func (r *Recorder) blockEvents(c *Chain, txs []TxSpec, br *BlockResult) {
 		return
 	}
 	w := r.w
-	txIdx := 0
+	// baseapp runs ValidateBasic before the ante handler: such transactions never reach the TxStart hook,
+	// their post-state is their pre-state
+	reaches := func(i int) bool {
+		for _, m := range txs[i].Msgs {
+			if vb, ok := m.(interface{ ValidateBasic() error }); ok {
+				if vb.ValidateBasic() != nil {
+					return false
+				}
+			}
+		}
+		return true
+	}
 	emitTx := func(i int, snap map[string]any) {
 		if i >= len(txs) {
 			return
@@ -380,6 +432,25 @@ func (r *Recorder) blockEvents(c *Chain, txs []TxSpec, br *BlockResult) {
 		}
 		r.emit(c.Name, "Tx:"+tx.Kind, args, res, snap)
 	}
+	if br.Err != "" {
+		// the block failed: no per-transaction results exist; report only the failure
+		var lastSnap map[string]any
+		for _, ev := range c.buf {
+			if ev.snap != nil {
+				lastSnap = ev.snap
+			}
+		}
+		r.emit(c.Name, "BlockError", map[string]any{"h": br.Height}, map[string]any{"err": trunc(br.Err, 300)}, lastSnap)
+		return
+	}
+	// cur = index of the transaction whose TxStart was seen last (-1: none yet); next = next tx to be matched
+	cur, next := -1, 0
+	flushSkipped := func(snap map[string]any) {
+		for next < len(txs) && !reaches(next) {
+			emitTx(next, snap) // unchanged state
+			next++
+		}
+	}
 	var last map[string]any
 	for _, ev := range c.buf {
 		if ev.snap != nil {
@@ -387,14 +458,18 @@ func (r *Recorder) blockEvents(c *Chain, txs []TxSpec, br *BlockResult) {
 		}
 		switch ev.point {
 		case "TxStart":
-			if txIdx > 0 {
-				emitTx(txIdx-1, ev.snap)
+			if cur >= 0 {
+				emitTx(cur, ev.snap)
 			}
-			txIdx++
+			flushSkipped(ev.snap)
+			cur = next
+			next++
 		case "EndStart":
-			if txIdx > 0 {
-				emitTx(txIdx-1, ev.snap)
+			if cur >= 0 {
+				emitTx(cur, ev.snap)
 			}
+			flushSkipped(ev.snap)
+			cur = -1
 			r.emit(c.Name, "EndStart", nil, nil, ev.snap)
 		case "EndDone":
 			// folded into the Block event below
@@ -408,10 +483,6 @@ func (r *Recorder) blockEvents(c *Chain, txs []TxSpec, br *BlockResult) {
 			}
 			r.emit(c.Name, ev.point, args, nil, ev.snap)
 		}
-	}
-	if br.Err != "" {
-		r.emit(c.Name, "BlockError", map[string]any{"h": br.Height}, map[string]any{"err": trunc(br.Err, 300)}, last)
-		return
 	}
 	ups := map[string]any{}
 	for _, u := range br.Updates {
